@@ -44,6 +44,9 @@ def obligations(ctx):
         for (nn, rsz, asz, nrows, ncols) in ((8, 1, 2, 2, 2), (8, 3, 1, 3, 4), (8, 5, 3, 2, 4), (8, 0, 2, 2, 3), (8, 2, 0, 2, 2), (4, 3, 2, 2, 4), (16, 3, 2, 2, 4)):
             for avx in (0, 1):
                 obs.append(ag.api_writeset_ob(t, api, nn, 0, avx, rsz, asz, nrows=nrows, ncols=ncols))
+    # the FFT drivers on both sides of their large-dimension switch (m > 2048: depth-first recursion), kernels stubbed
+    from vf.props import c06
+    obs += c06.schedule_writeset_obs(ctx)
     # (1') coefficient-space entry points take the module too: on exactly-sized output buffers every access of a call stays inside the limbs it was given
     # (a kernel that re-stores words next to its output - same values - is a data race with the owner of those words; here it is an out-of-bounds access)
     from vf.props import vecops_gen as vg
